@@ -2,7 +2,9 @@ package rules
 
 import (
 	"fmt"
+	"go/token"
 	"go/types"
+	"reflect"
 	"sort"
 	"strings"
 
@@ -13,7 +15,7 @@ import (
 
 func init() { register("C02", checkC02) }
 
-var c02Pkgs = []string{"flows/engine", "flows/runs", "flows", "flows/triggers", "flows/inputs"}
+var c02Pkgs = []string{"flows/engine", "flows/runs", "flows", "flows/triggers", "flows/inputs", "envs"}
 
 // fields that are deliberately not persisted, with the reason a restart cannot be observed through them
 var c02Transient = map[string]string{
@@ -49,6 +51,8 @@ func checkC02(p *core.Program, r *core.Report) {
 		return strings.HasPrefix(rel, "flows/triggers") || strings.HasPrefix(rel, "flows/resumes") || strings.HasPrefix(rel, "flows/inputs") || strings.HasPrefix(rel, "flows/events") || strings.HasPrefix(rel, "flows/modifiers") || strings.HasPrefix(rel, "flows/routers/waits")
 	})
 	r.Require("type_registries", r.Analysed["type_registries"], 6)
+	r.Rule("R5", "what the engine writes the reader accepts: an event field tagged validate:\"required\" is fed evaluated (possibly empty) text only under an emptiness test on the very value that is written")
+	c02R5(p, r)
 	r.Assumption("equality of behaviour of the restored session is not decided; encoding/json round-trips exported, tagged fields of plain structs")
 
 	pkgSet := map[string]bool{}
@@ -145,6 +149,47 @@ func checkC02(p *core.Program, r *core.Report) {
 	}
 	// read side: read-named functions and the same-package helpers they call (addRun, setters ...), two levels deep
 	readFns := map[*ssa.Function]string{}
+	callersOf := map[*ssa.Function][]*ssa.Function{}
+	for _, cs := range p.AllCalls() {
+		if p.IsTestFile(cs.Pos()) {
+			continue
+		}
+		if g := cs.Common().StaticCallee(); g != nil {
+			callersOf[g] = append(callersOf[g], rootFn(cs.Caller))
+		}
+	}
+	// passesDecodedData: some argument of the call derives from the caller's parameters or locals (the decoded form);
+	// a call like NewBuilder().Build() that is fed nothing restores nothing
+	passesDecodedData := func(cs core.CallSite) bool {
+		for _, a := range cs.Common().Args {
+			for v := range core.BackSlice(a, func(*ssa.Call) bool { return true }) {
+				switch x := v.(type) {
+				case *ssa.Parameter:
+					return true
+				case *ssa.Alloc:
+					_ = x
+					return true
+				}
+			}
+		}
+		return false
+	}
+	var onlyCalledFromRead func(f *ssa.Function) bool
+	onlyCalledFromRead = func(f *ssa.Function) bool {
+		cl := callersOf[f]
+		if len(cl) == 0 {
+			return false
+		}
+		for _, c := range cl {
+			if c == f {
+				continue
+			}
+			if _, inRead := readFns[c]; !inRead && !isReadName(c.Name()) {
+				return false
+			}
+		}
+		return true
+	}
 	var addRead func(fn *ssa.Function, root string, depth int)
 	addRead = func(fn *ssa.Function, root string, depth int) {
 		if fn == nil || fn.Blocks == nil || depth > 2 {
@@ -159,6 +204,11 @@ func checkC02(p *core.Program, r *core.Report) {
 		}
 		for _, cs := range core.Calls(fn, false) {
 			if f := cs.Common().StaticCallee(); f != nil && pkgSet[core.RelPkg(core.FuncPkgPath(f))] && !isMarshalName(f.Name()) {
+				// a helper belongs to the read side only when nothing but the read side calls it: a general-purpose
+				// constructor (a builder that fills in defaults) restores nothing from the persisted form
+				if !isReadName(f.Name()) && !onlyCalledFromRead(f) && !passesDecodedData(cs) {
+					continue
+				}
 				addRead(f, root, depth+1)
 			}
 		}
@@ -396,4 +446,157 @@ func c02R2R3(p *core.Program, r *core.Report, fns []*ssa.Function, pkgSet map[st
 			})
 		}
 	}
+}
+
+// c02R5: what the engine writes, the reader accepts. An event field tagged validate:"required" is rejected by ReadRun
+// when empty, so a value that comes out of template evaluation (which can be empty for some contact) may only be
+// passed to that field under an emptiness test on that very value — not on an earlier form of it that is trimmed or
+// rewritten afterwards.
+func c02R5(p *core.Program, r *core.Report) {
+	ev := p.SSAPkg("flows/events")
+	evPk := p.Pkg("flows/events")
+	if ev == nil || evPk == nil {
+		r.Errorf("flows/events not loaded")
+		return
+	}
+	// constructor parameter -> required string field
+	type reqParam struct {
+		idx   int
+		field string
+	}
+	ctors := map[*ssa.Function][]reqParam{}
+	for _, m := range ev.Members {
+		fn, ok := m.(*ssa.Function)
+		if !ok || !strings.HasPrefix(fn.Name(), "New") || len(fn.Blocks) == 0 {
+			continue
+		}
+		core.EachInstr(fn, false, func(_ *ssa.Function, in ssa.Instruction) {
+			st, ok := in.(*ssa.Store)
+			if !ok {
+				return
+			}
+			n, fv := c02FieldOwner(st.Addr)
+			if n == nil || fv == nil || !isStringType(fv.Type()) {
+				return
+			}
+			stt, ok := n.Underlying().(*types.Struct)
+			if !ok {
+				return
+			}
+			for i := 0; i < stt.NumFields(); i++ {
+				if stt.Field(i) != fv {
+					continue
+				}
+				tag := reflect.StructTag(stt.Tag(i))
+				if !strings.Contains(","+tag.Get("validate")+",", ",required,") {
+					return
+				}
+				prm, ok := core.StripConv(st.Val).(*ssa.Parameter)
+				if !ok {
+					return
+				}
+				for k, fp := range fn.Params {
+					if fp == prm {
+						ctors[fn] = append(ctors[fn], reqParam{k, fv.Name()})
+					}
+				}
+			}
+		})
+	}
+	n := 0
+	per := map[string]int{}
+	for fn, rps := range ctors {
+		for _, cs := range p.CallsTo(fn) {
+			if p.IsTestFile(cs.Pos()) || cs.Common().StaticCallee() != fn {
+				continue
+			}
+			for _, rp := range rps {
+				if rp.idx >= len(cs.Common().Args) {
+					continue
+				}
+				a := cs.Common().Args[rp.idx]
+				evaluated := false
+				for v := range core.BackSlice(a, func(*ssa.Call) bool { return true }) {
+					if c, ok := v.(*ssa.Call); ok {
+						if o := core.CalleeObj(&c.Call); o != nil && strings.HasPrefix(core.ObjName(o), "flows.Run.EvaluateTemplate") {
+							evaluated = true
+						}
+					}
+				}
+				if !evaluated {
+					continue
+				}
+				n++
+				same := core.BackSlice(a, nil) // conversions and phis only: the same text
+				guarded := false
+				for _, ce := range core.ControllingConds(cs.Instr.Block()) {
+					bo, ok := ce.Cond.(*ssa.BinOp)
+					if !ok || (bo.Op != token.EQL && bo.Op != token.NEQ) {
+						continue
+					}
+					var v ssa.Value
+					if s, ok := core.ConstString(bo.Y); ok && s == "" {
+						v = bo.X
+					} else if s, ok := core.ConstString(bo.X); ok && s == "" {
+						v = bo.Y
+					}
+					if v == nil || (bo.Op == token.NEQ) != ce.Taken {
+						continue
+					}
+					if v == a || same[v] {
+						guarded = true
+					}
+				}
+				// the value is the result of a validating parser whose error was checked (ParsePhone and the like)
+				for v := range same {
+					ex, ok := v.(*ssa.Extract)
+					if !ok || ex.Index != 0 {
+						continue
+					}
+					call, ok := ex.Tuple.(*ssa.Call)
+					if !ok {
+						continue
+					}
+					for _, ce := range core.ControllingConds(cs.Instr.Block()) {
+						bo, ok := ce.Cond.(*ssa.BinOp)
+						if !ok || !(core.IsNilConst(bo.X) || core.IsNilConst(bo.Y)) {
+							continue
+						}
+						other := bo.X
+						if core.IsNilConst(bo.X) {
+							other = bo.Y
+						}
+						if e2, ok := other.(*ssa.Extract); ok && e2.Tuple == ssa.Value(call) && e2.Index > 0 && ((bo.Op == token.EQL) == ce.Taken) {
+							guarded = true
+						}
+					}
+				}
+				key := core.FuncName(cs.Caller) + "/" + fn.Name() + "." + rp.field
+				per[key]++
+				if per[key] > 1 {
+					key = fmt.Sprintf("%s#%d", key, per[key])
+				}
+				r.Check(guarded, "R5", key, p.Pos(cs.Pos()), "non-empty test on the value that is written",
+					"the required event field "+rp.field+" is written from evaluated text without an emptiness test on that very value (a test on an earlier form that is trimmed or rewritten afterwards does not count): for a contact for whom it comes out blank the event is logged empty and ReadSession later rejects the run (field is required)")
+			}
+		}
+	}
+	r.Count("evaluated_required_event_fields", n)
+	r.Require("evaluated_required_event_fields", n, 1)
+}
+
+func c02FieldOwner(v ssa.Value) (*types.Named, *types.Var) {
+	fa, ok := v.(*ssa.FieldAddr)
+	if !ok {
+		return nil, nil
+	}
+	xt := fa.X.Type()
+	if pt, ok := xt.Underlying().(*types.Pointer); ok {
+		xt = pt.Elem()
+	}
+	n, ok := xt.(*types.Named)
+	if !ok {
+		return nil, nil
+	}
+	return n, core.FieldAddrVar(fa)
 }
